@@ -270,4 +270,43 @@ theorem memo_bounded_counterexample :
       [[0, 11, 100], [20, 31, 110]] := by
   constructor <;> decide
 
+/-! # Phase 3 -/
+
+/-- CONTENT-REWRITING FILTERS.  A stage that is `Model/C10`'s Repr / Flatten / Sparsify / Densify / Finalize
+applied to the content of the interactions (`dec`/`enc` arbitrary): appended to a consistent chain it delivers
+that function of the upstream's denotation, before and after any read session — so `reread` speaks about
+pipelines containing them -/
+theorem content_stage_reads (dec : Item → C10.Inter) (enc : C10.Inter → Item) (cfg : C10.Cfg) (st : C10.Step) (par : List Nat)
+    (u : List Item) (ns : List Node) (h : chainOK u ns) (d : Demand) :
+    viewN u (ns ++ [.pure (contentPure dec enc cfg st par)]) = contentF dec enc cfg st (denN u ns) ∧
+    viewN u (touchN u (ns ++ [.pure (contentPure dec enc cfg st par)]) d).1 = contentF dec enc cfg st (denN u ns) :=
+  content_stage_reads' dec enc cfg st par u ns h d
+
+/-- ALIASING.  When no stage of the pipeline writes into the objects it receives (every built-in filter
+copies before it changes anything: `interaction.copy()`, `Mutable`), a read leaves every object that
+existed before it — the data held by the source, a cache or the caller — exactly as it was -/
+theorem no_stage_writes_input (ss : List AStage) (h : ∀ s ∈ ss, s.writesInput = false) (st : Store) (held : List Nat) :
+    (readOnce ss st held).1.take st.length = st := no_stage_writes_input' ss h st held
+
+/-- … and the next read of the same held objects delivers the same values -/
+theorem second_read_same (ss : List AStage) (h : ∀ s ∈ ss, s.writesInput = false) (st : Store) (held : List Nat)
+    (hv : ∀ a ∈ held, a < st.length) :
+    deliver (readOnce ss (readOnce ss st held).1 held) = deliver (readOnce ss st held) :=
+  second_read_same' ss h st held hv
+
+example : ∀ s ∈ [AStage.share, AStage.copyMap (· * 2), AStage.copyMap (· + 1)], s.writesInput = false := by decide
+example : deliver (readOnce [.share, .copyMap (· * 2), .copyMap (· + 1)] [5, 7] [0, 1]) = [11, 15] := by decide
+
+/-- forced hypothesis: a stage that scales in place what a cache handed out (the round-1 `Mutable` mutant):
+the held objects change and the second read is scaled twice -/
+theorem inplace_stage_counterexample :
+    (readOnce [.share, .inPlace (· * 2)] [5, 7] [0, 1]).1 = [10, 14] ∧
+    deliver (readOnce [.share, .inPlace (· * 2)] [5, 7] [0, 1]) = [10, 14] ∧
+    deliver (readOnce [.share, .inPlace (· * 2)] (readOnce [.share, .inPlace (· * 2)] [5, 7] [0, 1]).1 [0, 1]) = [20, 28] := by
+  refine ⟨by decide, by decide, by decide⟩
+
+/-- SAVE / FROM_SAVE on the sequence: writing the interactions in batches (1000 in coba: `n+1` here) and
+chaining the batches read back gives the sequence that was written, for every batch size -/
+theorem load_save_batches (n : Nat) (xs : List Item) : loadBatches (saveBatches n xs) = xs := load_save_batches' n xs
+
 end Coba.C04
